@@ -93,7 +93,7 @@ Definition run_new (args : list Z) : list Z :=
   end.
 
 (* ---- family 5: timed join / unite scenario (see JoinSim.v)
-   [variant; J; nocopy; T; inaccuracy; icap; close_after; stop_at; fuel; 2n; (delay len)*n; 2m; (hold pause)*m; k; oracle bits]
+   [variant; J; nocopy; T; inaccuracy; icap; close_after; stop_at; fuel; capextra (spare capacity of the producer's slices, ignored here); 2n; (delay len)*n; 2m; (hold pause)*m; k; oracle bits]
    -> [0; ambiguous; finished; nputs; put times..; nouts; (t alias len vals..)*; tclose; stop_ret]   or [-code] (constructor error) *)
 Fixpoint pairs (l : list Z) : list (Z * Z) :=
   match l with a :: b :: r => (a, b) :: pairs r | _ => [] end.
@@ -107,7 +107,7 @@ Definition enc_out (o : Z * Z * list Z) : list Z :=
 
 Definition run_join (args : list Z) : list Z :=
   match args with
-  | var :: j :: nc :: tmo :: inacc :: icp :: closeafter :: stopat :: fuel :: r =>
+  | var :: j :: nc :: tmo :: inacc :: icp :: closeafter :: stopat :: fuel :: _capextra :: r =>
       let '(ps, r1) := take_list r in
       let '(cs, r2) := take_list r1 in
       let '(orc, _) := take_list r2 in
